@@ -327,10 +327,33 @@ func run(line string) (out string) {
 	case "dec":
 		b, _ := hex.DecodeString(f[2])
 		m, err := bgp.ParseBGPMessage(b, opts(f[1] == "1", false, true))
+		res := ""
 		if err != nil || m == nil {
-			return "err " + strings.ReplaceAll(fmt.Sprint(err), "\n", " ")
+			res = "err " + strings.ReplaceAll(fmt.Sprint(err), "\n", " ")
+		} else {
+			res = "ok " + showMsg(m)
 		}
-		return "ok " + showMsg(m)
+		// octets beyond the declared length are never looked at: the same buffer cut at the declared length must
+		// give the same answer
+		if len(b) >= 19 {
+			if dl := int(b[16])<<8 | int(b[17]); dl >= 19 && dl < len(b) {
+				m2, err2 := bgp.ParseBGPMessage(append([]byte{}, b[:dl]...), opts(f[1] == "1", false, true))
+				res2 := ""
+				if err2 != nil || m2 == nil {
+					res2 = "err"
+				} else {
+					res2 = "ok " + showMsg(m2)
+				}
+				r1 := res
+				if strings.HasPrefix(r1, "err") {
+					r1 = "err"
+				}
+				if r1 != res2 {
+					return "overread with-trailer=" + strings.ReplaceAll(r1, " ", "_") + " cut-at-declared-length=" + strings.ReplaceAll(res2, " ", "_")
+				}
+			}
+		}
+		return res
 	case "fuzz":
 		b, _ := hex.DecodeString(f[3])
 		return fuzz(f[1] == "1", f[2] == "1", b)
